@@ -118,6 +118,8 @@ func (s *Server) handleConnection(ctx context.Context, conn net.Conn) {
 	}
 
 	s.stats.incrementConnections()
+	// The channel of new channels is closed once the connection has ended.
+	defer s.stats.decrementConnections()
 	go gossh.DiscardRequests(reqs)
 	for newChannel := range chans {
 		go s.handleChannel(ctx, sshConn, newChannel)
@@ -207,7 +209,6 @@ func (s *Server) handleRequests(ctx context.Context, sshConn gossh.Conn,
 				if err := sshConn.Wait(); err != nil && err != io.EOF {
 					dlog.Server.Error(user, err)
 				}
-				s.stats.decrementConnections()
 				dlog.Server.Info(user, "Good bye Mister!")
 				terminate()
 			}()
